@@ -243,3 +243,560 @@ pub fn mkfs(p: &MkfsParams) -> Result<Store, String> {
     }
     Ok(st)
 }
+
+// ------------------------------------------------------------------------------------------------------------
+// populate: directories and files written with the encoding freedoms the library's writer never uses
+
+use crate::refdec::{sfn_checksum, Geom as G2};
+use crate::tree::{TNode, Ts};
+
+/// entropy pool consumed sequentially (all values come from the property-testing library)
+pub struct Pool<'a> {
+    vals: &'a [u32],
+    pos: usize,
+}
+
+impl<'a> Pool<'a> {
+    pub fn new(vals: &'a [u32]) -> Pool<'a> {
+        Pool { vals, pos: 0 }
+    }
+    pub fn next(&mut self) -> u32 {
+        if self.vals.is_empty() {
+            return 0;
+        }
+        let v = self.vals[self.pos % self.vals.len()].wrapping_add(((self.pos / self.vals.len()) as u32).wrapping_mul(0x9E37_79B9));
+        self.pos += 1;
+        v
+    }
+    pub fn below(&mut self, n: u32) -> u32 {
+        if n == 0 {
+            0
+        } else {
+            ((self.next() as u64 * n as u64) >> 32) as u32
+        }
+    }
+    pub fn chance(&mut self, pct: u32) -> bool {
+        self.below(100) < pct
+    }
+}
+
+#[derive(Clone, Debug, Serialize, Deserialize)]
+pub struct Freedoms {
+    pub fragmented: bool,
+    pub backwards: bool,
+    pub eoc_variants: bool,
+    pub bad_clusters: bool,
+    pub deleted_slots: bool,
+    pub orphan_runs: bool,
+    pub short_only: bool,
+    pub nt_case_flags: bool,
+    pub lead_05: bool,
+    pub oem_bytes: bool,
+    pub label_anywhere: bool,
+    pub all_attrs: bool,
+    pub junk_after_end: bool,
+    pub extra_dir_clusters: bool,
+}
+
+impl Freedoms {
+    pub fn count(&self) -> usize {
+        [self.fragmented, self.backwards, self.eoc_variants, self.bad_clusters, self.deleted_slots, self.orphan_runs, self.short_only, self.nt_case_flags, self.lead_05, self.oem_bytes, self.label_anywhere, self.all_attrs, self.junk_after_end, self.extra_dir_clusters]
+            .iter()
+            .filter(|x| **x)
+            .count()
+    }
+}
+
+pub struct Truth {
+    pub root: Vec<TNode>,
+    pub label: Option<[u8; 11]>,
+    pub has_fragmented_file: bool,
+    pub n_files: usize,
+    pub n_dirs: usize,
+}
+
+struct Alloc {
+    free: Vec<u32>,
+}
+
+impl Alloc {
+    fn take(&mut self, n: usize, pool: &mut Pool, fr: &Freedoms) -> Option<Vec<u32>> {
+        if self.free.len() < n {
+            return None;
+        }
+        let mut out = Vec::with_capacity(n);
+        if fr.fragmented && n > 1 && pool.chance(60) {
+            for _ in 0..n {
+                let i = pool.below(self.free.len() as u32) as usize;
+                out.push(self.free.remove(i));
+            }
+        } else {
+            let start = if self.free.len() > n { pool.below((self.free.len() - n) as u32) as usize } else { 0 };
+            out = self.free.drain(start..start + n).collect();
+            if fr.backwards && pool.chance(40) {
+                out.reverse();
+            }
+        }
+        Some(out)
+    }
+}
+
+fn dos_date(t: &Ts) -> u16 {
+    ((t.y - 1980) << 9) | (t.mo << 5) | t.d
+}
+fn dos_time(t: &Ts) -> u16 {
+    (t.h << 11) | (t.mi << 5) | (t.s / 2)
+}
+
+fn rand_ts(pool: &mut Pool) -> Ts {
+    Ts { y: 1980 + pool.below(128) as u16, mo: 1 + pool.below(12) as u16, d: 1 + pool.below(28) as u16, h: pool.below(24) as u16, mi: pool.below(60) as u16, s: pool.below(60) as u16, ms: (pool.below(100) * 10) as u16 }
+}
+
+const SHORT_LEGAL: &[u8] = b"ABCDEFGHIJKLMNOPQRSTUVWXYZ0123456789!#$%&'()-@^_`{}~";
+
+struct Child {
+    slots: Vec<[u8; 32]>,
+    node: TNode,
+    /// index into `slots` of the short entry (to patch the cluster later)
+    short_idx: usize,
+    sub: Option<Vec<Child>>,
+    data: Vec<u8>,
+    folded: String,
+    short: [u8; 11],
+}
+
+fn lfn_slots(units: &[u16], short: &[u8; 11]) -> Vec<[u8; 32]> {
+    let chk = sfn_checksum(short);
+    let n = (units.len() + 12) / 13;
+    let mut out = Vec::new();
+    for i in (0..n).rev() {
+        let mut u = [0xFFFFu16; 13];
+        let part = &units[i * 13..((i + 1) * 13).min(units.len())];
+        u[..part.len()].copy_from_slice(part);
+        if part.len() < 13 {
+            u[part.len()] = 0;
+        }
+        let mut s = [0u8; 32];
+        s[0] = (i + 1) as u8 | if i == n - 1 { 0x40 } else { 0 };
+        s[11] = 0x0F;
+        s[13] = chk;
+        let pos = [1, 3, 5, 7, 9, 14, 16, 18, 20, 22, 24, 28, 30];
+        for (k, p) in pos.iter().enumerate() {
+            s[*p..*p + 2].copy_from_slice(&u[k].to_le_bytes());
+        }
+        out.push(s);
+    }
+    out
+}
+
+const NAME_CHARS: &[char] = &['a', 'b', 'c', 'X', 'Y', 'z', '0', '7', ' ', '.', '_', '-', '+', 'é', 'Ж', 'ß', '語', 'ü', ',', '[', ']', '~'];
+
+fn gen_children(pool: &mut Pool, fr: &Freedoms, depth: usize, budget: &mut usize, serial: &mut u32, max_entries: usize, cs: usize) -> Vec<Child> {
+    let mut out: Vec<Child> = Vec::new();
+    let want = (1 + pool.below(6) as usize).min(max_entries).min(*budget);
+    for _ in 0..want {
+        if *budget == 0 {
+            break;
+        }
+        *budget -= 1;
+        *serial += 1;
+        let is_dir = depth < 2 && pool.chance(30);
+        let short_only = fr.short_only && pool.chance(45);
+        let mut short = [b' '; 11];
+        let mut nt = 0u8;
+        let visible: Vec<u16>;
+        if short_only {
+            let bl = 1 + pool.below(8) as usize;
+            let el = pool.below(4) as usize;
+            for i in 0..bl {
+                short[i] = SHORT_LEGAL[pool.below(SHORT_LEGAL.len() as u32) as usize];
+            }
+            for i in 0..el {
+                short[8 + i] = SHORT_LEGAL[pool.below(36) as usize];
+            }
+            if fr.oem_bytes && pool.chance(40) {
+                let k = pool.below(bl as u32) as usize;
+                short[k] = 0x80 + pool.below(0x7F) as u8;
+            }
+            if fr.lead_05 && pool.chance(30) {
+                short[0] = 0x05;
+            }
+            if short[0] == 0xE5 {
+                short[0] = 0x05; // 0xE5 in the first byte means "deleted"; the character 0xE5 is stored as 0x05
+            }
+            // make it unique with the serial number in the middle of the base name when there is room
+            let tag = format!("{:X}", *serial % 0xFFF);
+            if bl >= tag.len() + 1 {
+                short[1..1 + tag.len()].copy_from_slice(tag.as_bytes());
+            }
+            if fr.nt_case_flags {
+                nt = (pool.below(4) as u8) << 3;
+            }
+            let disp = crate::refdec::short_display(&short, nt);
+            visible = disp.iter().map(|b| if *b < 0x80 { *b as u16 } else { 0xFFFD }).collect();
+        } else {
+            let len = match pool.below(10) {
+                0 => 13,
+                1 => 14,
+                2 => 26,
+                3 => 1 + pool.below(60) as usize,
+                4 => 200 + pool.below(56) as usize,
+                _ => 1 + pool.below(20) as usize,
+            };
+            let mut name: String = (0..len).map(|_| NAME_CHARS[pool.below(NAME_CHARS.len() as u32) as usize]).collect();
+            name.push_str(&format!("{}", *serial));
+            let mut units: Vec<u16> = name.encode_utf16().collect();
+            units.truncate(255);
+            // alias in the ~N form, unique through the serial
+            let tag = format!("G{:04X}~{}", *serial & 0xFFFF, 1 + pool.below(9));
+            short[..tag.len()].copy_from_slice(tag.as_bytes());
+            if pool.chance(60) {
+                let ext = [b"TXT", b"BIN", b"A  "][pool.below(3) as usize];
+                short[8..11].copy_from_slice(ext);
+            }
+            visible = units;
+        }
+        let folded = crate::refdec::fold(&String::from_utf16_lossy(&visible));
+        if visible.is_empty() || out.iter().any(|c| c.folded == folded || c.short == short) || (short[0] == b'.' ) {
+            continue;
+        }
+        let mut attr = if is_dir { 0x10u8 } else { 0 };
+        if fr.all_attrs {
+            attr |= (pool.below(8) as u8) | if pool.chance(50) { 0x20 } else { 0 };
+        }
+        let created = rand_ts(pool);
+        let mut modified = rand_ts(pool);
+        modified.s &= !1;
+        modified.ms = 0;
+        let accessed = rand_ts(pool).date_only();
+        let data: Vec<u8> = if is_dir {
+            Vec::new()
+        } else {
+            let len = match pool.below(6) {
+                0 => 0,
+                1 => 1 + pool.below(20) as usize,
+                2 => cs,
+                3 => cs + 1,
+                4 => 2 * cs + pool.below(cs as u32) as usize,
+                _ => pool.below(4 * cs as u32) as usize,
+            };
+            (0..len).map(|i| (i as u32).wrapping_mul(31).wrapping_add(*serial) as u8).collect()
+        };
+        let mut slots: Vec<[u8; 32]> = Vec::new();
+        // junk before the entry
+        if fr.deleted_slots && pool.chance(35) {
+            let mut d = [0u8; 32];
+            d[..11].copy_from_slice(b"\xE5ELETED TXT");
+            d[11] = 0x20;
+            d[26] = 3;
+            d[28] = 77;
+            slots.push(d);
+            if pool.chance(50) {
+                let mut run = lfn_slots(&"deleted long name entry".encode_utf16().collect::<Vec<_>>(), b"DELETE~1TXT");
+                for s in run.iter_mut() {
+                    s[0] = 0xE5;
+                }
+                slots.extend(run);
+                let mut d2 = d;
+                d2[1] = b'X';
+                slots.push(d2);
+            }
+        }
+        if fr.orphan_runs && pool.chance(30) {
+            // an orphan long-name run: wrong checksum / truncated (no index 1) / followed by a deleted slot
+            let mut run = lfn_slots(&"orphaned long name that nobody owns".encode_utf16().collect::<Vec<_>>(), b"ORPHAN~1   ");
+            match pool.below(3) {
+                0 => {
+                    for s in run.iter_mut() {
+                        s[13] = s[13].wrapping_add(1 + pool.below(200) as u8);
+                    }
+                    // the wrong checksum must not accidentally match the next entry's short name
+                    let real = sfn_checksum(&short);
+                    for s in run.iter_mut() {
+                        if s[13] == real {
+                            s[13] = real.wrapping_add(1);
+                        }
+                    }
+                    slots.extend(run);
+                }
+                1 => {
+                    run.pop();
+                    let real = sfn_checksum(&short);
+                    for s in run.iter_mut() {
+                        if s[13] == real {
+                            s[13] = real.wrapping_add(1);
+                        }
+                    }
+                    slots.extend(run);
+                }
+                _ => {
+                    slots.extend(run);
+                    let mut d = [0u8; 32];
+                    d[..11].copy_from_slice(b"\xE5RPHAN~1   ");
+                    d[11] = 0x20;
+                    slots.push(d);
+                }
+            }
+        }
+        if !short_only {
+            slots.extend(lfn_slots(&visible, &short));
+        }
+        let mut s = [0u8; 32];
+        s[..11].copy_from_slice(&short);
+        s[11] = attr;
+        s[12] = nt;
+        s[13] = ((created.s % 2) * 100 + created.ms / 10) as u8;
+        s[14..16].copy_from_slice(&dos_time(&created).to_le_bytes());
+        s[16..18].copy_from_slice(&dos_date(&created).to_le_bytes());
+        s[18..20].copy_from_slice(&dos_date(&accessed).to_le_bytes());
+        s[22..24].copy_from_slice(&dos_time(&modified).to_le_bytes());
+        s[24..26].copy_from_slice(&dos_date(&modified).to_le_bytes());
+        s[28..32].copy_from_slice(&(data.len() as u32).to_le_bytes());
+        let short_idx = slots.len();
+        slots.push(s);
+        let sub = if is_dir { Some(gen_children(pool, fr, depth + 1, budget, serial, 12, cs)) } else { None };
+        let node = TNode {
+            name: visible,
+            short: crate::refdec::short_display(&short, 0),
+            is_dir,
+            attr,
+            size: data.len() as u64,
+            created,
+            modified,
+            accessed,
+            data: if is_dir { None } else { Some(data.clone()) },
+            children: Vec::new(),
+            has_long: !short_only,
+        };
+        out.push(Child { slots, node, short_idx, sub, data, folded, short });
+    }
+    out
+}
+
+struct Writer<'a> {
+    st: &'a mut Store,
+    g: G2,
+    alloc: Alloc,
+    eoc_variants: bool,
+    nfats: u64,
+    fragmented_file: bool,
+}
+
+impl<'a> Writer<'a> {
+    fn link(&mut self, chain: &[u32], pool: &mut Pool) {
+        for (i, c) in chain.iter().enumerate() {
+            let v = if i + 1 < chain.len() { chain[i + 1] } else { self.g.eoc_min() + if self.eoc_variants { pool.below(8) } else { 7 } };
+            for copy in 0..self.nfats {
+                // inactive copies keep their garbage when mirroring is off
+                if !self.g.mirrored() && copy != self.g.active_copy() {
+                    continue;
+                }
+                set_fat(self.st, &self.g, copy, *c, v);
+            }
+        }
+    }
+
+    /// lay out a directory's children; returns the TNodes. `clusters`: the directory's clusters (None = fixed root)
+    fn write_dir(&mut self, children: Vec<Child>, self_cluster: u32, parent_cluster: u32, is_root: bool, fixed_root: bool, label: Option<&[u8; 11]>, pool: &mut Pool, fr: &Freedoms, root_chain: Option<Vec<u32>>) -> Result<Vec<TNode>, String> {
+        let cs = self.g.cluster_size() as usize;
+        let mut slots: Vec<[u8; 32]> = Vec::new();
+        if !is_root {
+            for (nm, cl) in [(b".          ", self_cluster), (b"..         ", parent_cluster)] {
+                let mut s = [0u8; 32];
+                s[..11].copy_from_slice(nm);
+                s[11] = 0x10;
+                s[26..28].copy_from_slice(&(cl as u16).to_le_bytes());
+                s[20..22].copy_from_slice(&((cl >> 16) as u16).to_le_bytes());
+                s[16] = 0x21;
+                s[18] = 0x21;
+                s[24] = 0x21;
+                slots.push(s);
+            }
+        }
+        let label_pos = if label.is_some() { if fr.label_anywhere { pool.below(children.len() as u32 + 1) as usize } else { 0 } } else { usize::MAX };
+        let mut nodes = Vec::new();
+        let mut pending: Vec<(usize, Child)> = Vec::new(); // (index of short slot in `slots`, child)
+        for (i, ch) in children.into_iter().enumerate() {
+            if i == label_pos {
+                let mut s = [0u8; 32];
+                s[..11].copy_from_slice(label.unwrap());
+                s[11] = 0x08;
+                slots.push(s);
+            }
+            let base = slots.len();
+            slots.extend(ch.slots.iter().copied());
+            pending.push((base + ch.short_idx, ch));
+        }
+        if label_pos != usize::MAX && label_pos >= pending.len() {
+            let mut s = [0u8; 32];
+            s[..11].copy_from_slice(label.unwrap());
+            s[11] = 0x08;
+            slots.push(s);
+        }
+        // allocate data for the children and patch their cluster fields
+        for (sidx, ch) in pending.into_iter() {
+            let mut node = ch.node.clone();
+            let first = if let Some(sub) = ch.sub {
+                let need = 1;
+                let chain = self.alloc.take(need, pool, fr).ok_or("out of clusters")?;
+                let first = chain[0];
+                // the subdirectory's own chain is extended inside write_dir when needed
+                let kids = self.write_dir_chain(sub, chain, if is_root { 0 } else { self_cluster }, pool, fr)?;
+                node.children = kids;
+                first
+            } else if ch.data.is_empty() {
+                0
+            } else {
+                let n = (ch.data.len() + cs - 1) / cs;
+                let chain = self.alloc.take(n, pool, fr).ok_or("out of clusters")?;
+                if chain.windows(2).any(|w| w[1] != w[0] + 1) {
+                    self.fragmented_file = true;
+                }
+                self.link(&chain, pool);
+                for (k, c) in chain.iter().enumerate() {
+                    let part = &ch.data[k * cs..((k + 1) * cs).min(ch.data.len())];
+                    let mut buf = vec![0xEEu8; cs]; // slack after the last byte is garbage, not zeros
+                    buf[..part.len()].copy_from_slice(part);
+                    self.st.write_at(self.g.cluster_off(*c), &buf);
+                }
+                chain[0]
+            };
+            slots[sidx][26..28].copy_from_slice(&(first as u16).to_le_bytes());
+            if self.g.width == 32 {
+                slots[sidx][20..22].copy_from_slice(&((first >> 16) as u16).to_le_bytes());
+            }
+            nodes.push(node);
+        }
+        // write the slots
+        let total_bytes = slots.len() * 32;
+        if fixed_root {
+            if slots.len() > self.g.raw.root_ent_cnt as usize {
+                return Err("fixed root overflow".into());
+            }
+            let cap = self.g.root_bytes() as usize;
+            let mut buf = vec![0u8; cap];
+            for (i, s) in slots.iter().enumerate() {
+                buf[i * 32..i * 32 + 32].copy_from_slice(s);
+            }
+            if fr.junk_after_end {
+                for i in slots.len()..cap / 32 {
+                    for b in 1..32 {
+                        buf[i * 32 + b] = pool.next() as u8;
+                    }
+                }
+            }
+            self.st.write_at(self.g.root_off(), &buf);
+        } else {
+            let mut chain = root_chain.ok_or("chain missing")?;
+            let mut need = (total_bytes + cs - 1) / cs;
+            if need == 0 {
+                need = 1;
+            }
+            if fr.extra_dir_clusters && pool.chance(40) {
+                need += 1;
+            }
+            while chain.len() < need {
+                let more = self.alloc.take(1, pool, fr).ok_or("out of clusters")?;
+                chain.push(more[0]);
+            }
+            self.link(&chain, pool);
+            let mut buf = vec![0u8; chain.len() * cs];
+            for (i, s) in slots.iter().enumerate() {
+                buf[i * 32..i * 32 + 32].copy_from_slice(s);
+            }
+            if fr.junk_after_end {
+                for i in slots.len()..buf.len() / 32 {
+                    for b in 1..32 {
+                        buf[i * 32 + b] = pool.next() as u8;
+                    }
+                }
+            }
+            for (k, c) in chain.iter().enumerate() {
+                self.st.write_at(self.g.cluster_off(*c), &buf[k * cs..(k + 1) * cs]);
+            }
+        }
+        Ok(nodes)
+    }
+
+    fn write_dir_chain(&mut self, children: Vec<Child>, chain: Vec<u32>, parent_cluster: u32, pool: &mut Pool, fr: &Freedoms) -> Result<Vec<TNode>, String> {
+        let first = chain[0];
+        self.write_dir(children, first, parent_cluster, false, false, None, pool, fr, Some(chain))
+    }
+}
+
+/// Populate an empty imggen volume. Returns the ground truth.
+pub fn populate(st: &mut Store, entropy: &[u32], fr: &Freedoms, max_objects: usize) -> Result<Truth, String> {
+    let g = G2::parse(st)?;
+    let mut pool = Pool::new(entropy);
+    // free clusters, minus a few BAD ones
+    let mut free: Vec<u32> = (2..=g.max_cluster()).filter(|c| !(g.width == 32 && *c == g.raw.root_clus)).collect();
+    if free.len() > 3000 {
+        // keep the working set small on big volumes: a window at the start, one in the middle, one at the very end
+        let n = free.len();
+        let mut f2: Vec<u32> = free[..800].to_vec();
+        f2.extend_from_slice(&free[n / 2..n / 2 + 800]);
+        f2.extend_from_slice(&free[n - 800..]);
+        free = f2;
+    }
+    let nfats = g.nfats;
+    if fr.bad_clusters {
+        for _ in 0..(1 + pool.below(6)) {
+            if free.len() < 20 {
+                break;
+            }
+            let i = pool.below(free.len() as u32) as usize;
+            let c = free.remove(i);
+            for copy in 0..nfats {
+                if !g.mirrored() && copy != g.active_copy() {
+                    continue;
+                }
+                set_fat(st, &g, copy, c, g.bad_mark());
+            }
+        }
+    }
+    let cs = g.cluster_size() as usize;
+    let fixed_root = g.width != 32;
+    let mut budget = max_objects;
+    let mut serial = 0u32;
+    let root_cap = if fixed_root { (g.raw.root_ent_cnt as usize).saturating_sub(2) / 4 } else { 40 };
+    let children = gen_children(&mut pool, fr, 0, &mut budget, &mut serial, root_cap.max(1), cs);
+    // fixed root capacity check: drop children until the slots fit
+    let mut children = children;
+    if fixed_root {
+        loop {
+            let n: usize = children.iter().map(|c| c.slots.len()).sum::<usize>() + 1;
+            if n <= g.raw.root_ent_cnt as usize || children.is_empty() {
+                break;
+            }
+            children.pop();
+        }
+    }
+    let label: Option<[u8; 11]> = if pool.chance(60) { Some(*b"TRUTH LABEL") } else { None };
+    let mut w = Writer { st, g: g.clone(), alloc: Alloc { free }, eoc_variants: fr.eoc_variants, nfats, fragmented_file: false };
+    let root_chain = if fixed_root { None } else { Some(vec![g.raw.root_clus]) };
+    let root_cluster = if fixed_root { 0 } else { g.raw.root_clus };
+    let nodes = w.write_dir(children, root_cluster, 0, true, fixed_root, label.as_ref(), &mut pool, fr, root_chain)?;
+    let frag = w.fragmented_file;
+    // FS-info
+    if g.width == 32 && g.raw.fs_info != 0 {
+        let free_cnt = g.count_free(st) as u32;
+        st.write_at(g.fsinfo_off() + 488, &free_cnt.to_le_bytes());
+    }
+    fn count(v: &[TNode]) -> (usize, usize) {
+        let mut f = 0;
+        let mut d = 0;
+        for n in v {
+            if n.is_dir {
+                d += 1;
+                let (a, b) = count(&n.children);
+                f += a;
+                d += b;
+            } else {
+                f += 1;
+            }
+        }
+        (f, d)
+    }
+    let (n_files, n_dirs) = count(&nodes);
+    Ok(Truth { root: nodes, label, has_fragmented_file: frag, n_files, n_dirs })
+}
